@@ -189,6 +189,8 @@ static rc::Gen<TecmpRecipe> genFrame(int tier)
                 break;
             }
         }
+        if ((r.kind == 2 || r.kind == 3) && *range<int>(0, 5) == 0)
+            r.vendorLen = *rc::gen::weightedOneOf<int32_t>({{2, range<int32_t>(0, 40)}, {2, range<int32_t>(0xFFE0, 0xFFFF)}, {1, range<int32_t>(0, 0xFFFF)}});
         // inconsistent forms
         int inc = *rc::gen::weightedElement<int>({{6, 0}, {2, 1}, {2, 2}, {1, 3}, {1, 4}});
         if (inc == 1 && r.kind <= 1)
